@@ -12,6 +12,7 @@ from mako.cache import CacheImpl
 
 STORE = {}
 LOG = []
+ARGS = []  # (cache id, key, backend arguments) of every SimDictCache.get_or_create call
 FAIL = {"get_or_create": 0, "invalidate": 0}  # countdown fault injection: raise when it reaches 1
 
 
@@ -22,6 +23,7 @@ class BackendError(Exception):
 def reset():
     STORE.clear()
     del LOG[:]
+    del ARGS[:]
     FAIL["get_or_create"] = 0
     FAIL["invalidate"] = 0
 
@@ -50,6 +52,7 @@ class SimDictCache(CacheImpl):
         return ent
 
     def get_or_create(self, key, creation_function, **kw):
+        ARGS.append((self.cache.id, key, {k: v for k, v in kw.items() if k != "context"}))
         ns = self._ns()
         ent = self._live(ns, key, kw.get("timeout"))
         if ent is not None:
